@@ -30,15 +30,14 @@ Theorem C20_pid0_unlisted_refuted :
 Proof. exact pid0_unlisted_refuted. Qed.
 Print Assumptions C20_pid0_unlisted_refuted.
 
-(* finding (excluded above, second disjunct of known_class): Windows memory_maps() is a generator whose
-   try/except covers proc_memory_maps() only; a failure of QueryDosDevice() (path conversion of a row)
-   leaves it as the bare error, while open_files() translates the same failure *)
-Theorem C20_win_mmaps_refuted :
+(* what fix d6fc959 repaired: the legacy variant of the model (Windows memory_maps() generator converting the
+   error of proc_memory_maps() only) lets a QueryDosDevice() failure out bare; the present model gives AccessDenied *)
+Theorem C20_win_mmaps_legacy_refuted :
   exists c, err_ok Windows (c_err c) = true /\ demanded Windows "memory_maps" "QueryDosDevice" c = Some RDenied
-            /\ method_outcome Windows "memory_maps" "QueryDosDevice" c = RRaw
-            /\ method_outcome Windows "open_files" "QueryDosDevice" c = RDenied.
-Proof. exact win_mmaps_refuted. Qed.
-Print Assumptions C20_win_mmaps_refuted.
+            /\ method_outcome_pre_d6fc959 Windows "memory_maps" "QueryDosDevice" c = RRaw
+            /\ method_outcome Windows "memory_maps" "QueryDosDevice" c = RDenied.
+Proof. exact win_mmaps_legacy_refuted. Qed.
+Print Assumptions C20_win_mmaps_legacy_refuted.
 
 (* what fix a2d103c repaired: with Windows ppid() undecorated (legacy variant of the model) a
    permission failure of ppid_map() left as the bare error; the present model gives AccessDenied *)
@@ -62,12 +61,6 @@ Theorem C20_pid0_unlisted_in_tables :
     forallb2 (fun c g => gout_ok (demanded (l_plat b) (l_meth b) (l_site b) c) g) (conds (l_plat b)) (l_outs b) = false.
 Proof. exact pid0_unlisted_in_tables. Qed.
 Print Assumptions C20_pid0_unlisted_in_tables.
-
-Theorem C20_win_mmaps_in_tables :
-  exists b, In b ladder_blocks /\ l_plat b = Windows /\ l_meth b = "memory_maps"%string /\ l_site b = "QueryDosDevice"%string /\
-    forallb2 (fun c g => gout_ok (demanded (l_plat b) (l_meth b) (l_site b) c) g) (conds (l_plat b)) (l_outs b) = false.
-Proof. exact win_mmaps_in_tables. Qed.
-Print Assumptions C20_win_mmaps_in_tables.
 
 (* the zombie test, for EVERY native status code of every platform's PROC_STATUSES (x method x native
    call x pid in {7,0}): ESRCH gives ZombieProcess exactly for the codes that mean zombie (on OpenBSD
@@ -106,7 +99,7 @@ Print Assumptions C20_pair_model.
 
 (* retry_error_partial_copy: ERROR_PARTIAL_COPY k times then success / another error, for every k *)
 Theorem C20_retry_model : forall meth site k then_ s z r,
-  (forall e, then_ = Some e -> err_ok Windows e = true) -> known_win_mmaps Windows meth site = false ->
+  (forall e, then_ = Some e -> err_ok Windows e = true) ->
   retry_demanded meth site k then_ s z = Some r -> retry_outcome meth site k then_ s z = r.
 Proof. exact retry_model. Qed.
 Print Assumptions C20_retry_model.
@@ -182,23 +175,16 @@ Theorem C20_names_all_platforms : forall p, In p all_plats -> exists n, In n nam
 Proof. exact names_all_platforms. Qed.
 Print Assumptions C20_names_all_platforms.
 
-(* cpu_times() / virtual_memory() / swap_memory() / disk_io_counters() / net_io_counters() of every platform's
-   front end: the named tuple has exactly the fields the documentation gives for that platform
-   (Solaris/AIX cpu_times and virtual_memory excluded: finding -- "nice"/"active"/"inactive" are documented
-   for UNIX, "iowait" for Linux only); all 7 x 5 rows present *)
+(* regression table (beyond the property text, which promises names): cpu_times() / virtual_memory() / swap_memory() /
+   disk_io_counters() / net_io_counters() of every platform's front end return a named tuple with exactly the
+   per-platform field list recorded in Spec.doc_sys_fields; all 7 x 5 rows present *)
 Theorem C20_names_fields_documented : forall r, In r sysfield_rows ->
-  known_sys_fields (sf_plat r) (sf_fn r) = false -> same_set (sf_fields r) (doc_sys_fields (sf_plat r) (sf_fn r)) = true.
+  same_set (sf_fields r) (doc_sys_fields (sf_plat r) (sf_fn r)) = true.
 Proof. exact names_fields_documented. Qed.
 Print Assumptions C20_names_fields_documented.
 Theorem C20_names_fields_complete : sfrows_complete sysfield_rows = true.
 Proof. exact names_fields_complete. Qed.
 Print Assumptions C20_names_fields_complete.
-Theorem C20_sys_fields_unix_refuted : forall p, In p [SunOS; AIX] ->
-  exists r, In r sysfield_rows /\ sf_plat r = p /\ sf_fn r = "cpu_times"%string /\ sfrow_doc_ok r = false
-            /\ mem "nice" (sf_fields r) = false /\ mem "iowait" (sf_fields r) = true.
-Proof. exact sys_fields_unix_refuted. Qed.
-Print Assumptions C20_sys_fields_unix_refuted.
-
 (* net_if_addrs() post-processing: probed rows equal the model ... *)
 Theorem C20_frontend_rows_equal_model : forall r, In r nic_rows -> nic_ok r = true.
 Proof. exact frontend_rows_equal_model. Qed.
@@ -219,12 +205,18 @@ Theorem C20_frontend_broadcast_prefix : forall fam w a k, (fam = 0 /\ w = 32) \/
 Proof. exact frontend_broadcast_prefix. Qed.
 Print Assumptions C20_frontend_broadcast_prefix.
 
-(* ... finding: but an IPv6 netmask in ADDRESS form (the only form psutil's native layers produce) is never
-   turned into a broadcast address: the row keeps whatever broadcast it had (None on Windows) *)
-Theorem C20_ipv6_addrform_refuted : forall a k b,
-  post_bcast Windows {| n_fam := 1; n_addr := []; n_addrz := a; n_mask := MAddr (netmask_of 128 k); n_bcast := b |} = b.
-Proof. exact ipv6_addrform_refuted. Qed.
-Print Assumptions C20_ipv6_addrform_refuted.
+(* ... and for IPv6 with the netmask in address form, the form psutil's native layers use (fix 0a57bb9) ... *)
+Theorem C20_frontend_broadcast_v6_addr : forall a k, 0 <= a < 2 ^ 128 -> 0 <= k <= 128 ->
+  post_bcast Windows {| n_fam := 1; n_addr := []; n_addrz := a; n_mask := MAddr (netmask_of 128 k); n_bcast := None |}
+  = Some (spec_bcast 128 a k).
+Proof. exact frontend_broadcast_v6_addr. Qed.
+Print Assumptions C20_frontend_broadcast_v6_addr.
+
+(* ... which the legacy variant of the model (before fix 0a57bb9) never computed *)
+Theorem C20_ipv6_addrform_legacy_refuted : forall a k b,
+  post_bcast_pre_0a57bb9 Windows {| n_fam := 1; n_addr := []; n_addrz := a; n_mask := MAddr (netmask_of 128 k); n_bcast := b |} = b.
+Proof. exact ipv6_addrform_legacy_refuted. Qed.
+Print Assumptions C20_ipv6_addrform_legacy_refuted.
 
 (* ... and whose MAC padding gives six octets for EVERY MAC of 1..6 separator-free octets, on every platform *)
 Theorem C20_frontend_mac : forall p os, let sep := match p with Windows => 45 | _ => 58 end in
